@@ -113,6 +113,12 @@ def desSigPkD (bs : Bytes) : Option Bytes := desSigPkZ bs
 def desSigSkZ (bs : Bytes) : Option Bytes := if bs.length = 32 then some bs else none
 def desSigSkD (bs : Bytes) : Option Bytes := desSigSkZ bs
 
+/-- `StrandSignatureSk::new(rng)` of both front-ends (`SigningKey::new` of ed25519-zebra,
+    `SigningKey::generate` of ed25519-dalek): ONE `fill_bytes` of 32 bytes, the bytes are the seed.
+    `none` = the tape ran out (the harness never lets that happen). -/
+def edGenerate (tape : Bytes) : Option (Bytes × Bytes) :=
+  if 32 ≤ tape.length then some (tape.take 32, tape.drop 32) else none
+
 /-- `StrandSignature` (both): any 64 bytes — `Signature::try_from([u8; 64])` is the blanket
     impl over the infallible `From<[u8; 64]>`; neither R nor s is inspected before `verify` -/
 def desSigZ (bs : Bytes) : Option Bytes := if bs.length = 64 then some bs else none
